@@ -225,7 +225,8 @@ def run(pid, tier, seed, replay):
                 "group keys and at least one run that returned rows; stream: >= 2 output batches (an early emission happened)",
         "runs_with_spill": sum(1 for r in runs if r["spills"] > 0),
         "runs_with_skipped_partial_rows": sum(1 for r in runs if r["skipped"] > 0),
-        "runs_out_of_memory_budget": sum(1 for r in runs if r.get("benign")),
+        "runs_out_of_memory_budget": sum(1 for r in runs if r.get("benign") and r.get("err") != "timeout"),
+        "runs_hung_3_times_in_a_row": sum(1 for r in runs if r.get("err") == "timeout"),
         "grouping_sets_cases": sum(1 for c in aggs if c["sets"]),
         "adversarial_histories": sum(1 for c in ords if c["adversarial"]),
         "histories_with_panic": sum(1 for c in ords if any(o.get("panic") for o in c["obs"])),
@@ -244,5 +245,7 @@ def run(pid, tier, seed, replay):
     ck.assumptions = [
         "the input really is sorted as declared (the harness sorts it; an unsorted input under a declared ordering is outside the property)",
         "a run that ends with ResourcesExhausted under a memory budget has no result and is not compared",
+        "liveness is not C06's: plans with RepartitionExec under a memory budget intermittently never finish on a loaded machine; "
+        "a run that exceeds 20 s is repeated, after 3 hangs in a row it counts as 'no result' (runs_hung_3_times_in_a_row)",
         "floats as aggregate arguments are not covered (avg is taken over BIGINT values cast to DOUBLE, exactly representable)"]
     return ck.finish()
